@@ -26,9 +26,9 @@ type Driver struct {
 	N   int
 }
 
-// StartDriver launches the compiled Lean driver.
-func StartDriver() (*Driver, error) {
-	bin := filepath.Join(VerifDir(), "lean", ".lake", "build", "bin", "driver")
+// StartDriver launches the compiled Lean driver of one property (lean/.lake/build/bin/driver-<pid>).
+func StartDriver(pid string) (*Driver, error) {
+	bin := filepath.Join(VerifDir(), "lean", ".lake", "build", "bin", "driver-"+pid)
 	cmd := exec.Command(bin)
 	in, err := cmd.StdinPipe()
 	if err != nil {
